@@ -536,3 +536,53 @@ Proof.
   destruct Hsh as (HA & Hd & Hlw & _ & _).
   apply (wsq_zero w); [assumption|rewrite length_mv; congruence|assumption].
 Qed.
+
+(** ** the code path as a whole: a solver result for the scaled problem,
+    divided by the scale, minimises the objective of the property *)
+Theorem code_path_minimises n s A d w alpha c :
+  Forall (fun x => 0 < x) s -> wfm n A -> length s = n -> length c = n ->
+  length d = length A -> length w = length A ->
+  Forall (fun x => 0 <= x) w -> 0 <= alpha ->
+  solves_scaled n s A d w alpha c ->
+  forall p', length p' = n ->
+    Phi A d w alpha (vmul s s) (unscale s c) <= Phi A d w alpha (vmul s s) p'.
+Proof.
+  intros Hs HA Hl Hc Hd Hw Hwn Ha Hsol.
+  assert (Hnz: nonzero_vec s).
+  { eapply Forall_impl; [|exact Hs]. intros a H E; simpl in H. rewrite E in H. lra. }
+  apply (normal_eq_optimal n).
+  - repeat split; try assumption.
+    + rewrite length_vmul; congruence.
+    + unfold unscale. rewrite length_vdiv; congruence.
+  - assumption.
+  - clear -Hs. induction Hs; simpl; constructor; auto. nra.
+  - assumption.
+  - apply scaling_undone; assumption.
+Qed.
+
+(** any two minimisers predict the same values at the data points (strictly
+    positive weights), whether or not the parameters are unique *)
+Theorem optimal_predictions_unique n A d w alpha s2 p q :
+  ls_shapes n A d w s2 p -> length q = n ->
+  Forall (fun x => 0 < x) w -> Forall (fun x => 0 <= x) s2 -> 0 <= alpha ->
+  normal_eq n A d w alpha s2 p -> normal_eq n A d w alpha s2 q ->
+  veq (mv A q) (mv A p).
+Proof.
+  intros Hsh Hq Hw Hs Ha Hp Hqn.
+  assert (Hw': Forall (fun x => 0 <= x) w) by (eapply Forall_impl; [|exact Hw]; intros a H; simpl in H; lra).
+  assert (Hlp: length p = n) by (destruct Hsh as (_ & _ & _ & _ & H); exact H).
+  assert (Hshq: ls_shapes n A d w s2 q) by (destruct Hsh as (H1 & H2 & H3 & H4 & H5); repeat split; assumption).
+  pose proof (Phi_expand n A d w alpha s2 p (vsub q p) Hsh ltac:(rewrite length_vsub; congruence)) as E1.
+  rewrite (vadd_vsub_cancel p q) in E1 by congruence.
+  rewrite (dot_vzero_r _ _ Hp) in E1.
+  pose proof (normal_eq_optimal n A d w alpha s2 q Hshq Hw' Hs Ha Hqn p Hlp) as O.
+  unfold Qform in E1.
+  pose proof (wsq_nonneg w (mv A (vsub q p)) Hw') as N1.
+  pose proof (wsq_nonneg s2 (vsub q p) Hs) as N2.
+  assert (N3: 0 <= alpha * dot s2 (vsq (vsub q p))) by nra.
+  assert (Z: dot w (vsq (mv A (vsub q p))) == 0) by lra.
+  destruct Hsh as (HA & Hd & Hlw & _ & _).
+  apply vzero_vsub_veq; [rewrite !length_mv; reflexivity|].
+  rewrite <- mv_vsub by (try (rewrite Hq; exact HA); congruence).
+  apply (wsq_zero w); [assumption|rewrite length_mv; congruence|assumption].
+Qed.
